@@ -244,6 +244,8 @@ def check_loader(case: Dict[str, Any]) -> CaseInfo:
         classes.append("permuted_parse_order")
     if case.get("big_vocab"):
         classes.append("vocabulary_above_127_symbols")
+    if case.get("superset_rank") is not None:
+        classes.append("one_rank_vocabulary_is_the_union")
     if len({c["hashseed"] for c in case["configs"]}) >= 2:
         classes.append("several_hash_seeds")
     ok_an = [k for k, v in base["analyses"].items() if not (isinstance(v, dict) and "raises" in v)]
@@ -278,6 +280,31 @@ def loader_case(draw):
         else:
             big = False
     case["big_vocab"] = big
+    # a rank whose vocabulary is a superset of every other rank's: clones of the other ranks' complete events are
+    # appended on separate threads / correlation ids after its own events
+    if len(case["ranks"]) >= 2 and draw(st.sampled_from([False, True, False])):
+        j = draw(st.sampled_from(list(range(1, len(case["ranks"])))))
+        tgt = case["ranks"][j]
+        if not any(e.get("name", "").startswith("ProfilerStep#") for rd in case["ranks"] for e in rd["events"]):
+            t0 = max((e.get("ts", 0) + e.get("dur", 0) for e in tgt["events"] if e.get("ph") == "X" and e.get("cat") != "Trace"), default=0) + 5
+            k = 0
+            for i, rd in enumerate(case["ranks"]):
+                if i == j:
+                    continue
+                base = min((e["ts"] for e in rd["events"] if e.get("ph") == "X" and e.get("cat") != "Trace"), default=0)
+                for e in rd["events"]:
+                    if e.get("ph") != "X" or e.get("cat") in (None, "Trace") or e.get("dur") is None:
+                        continue
+                    c = json.loads(json.dumps(e))
+                    c["ts"] = t0 + (e["ts"] - base)
+                    if isinstance(c.get("tid"), int) and c.get("pid", 0) >= 5000:
+                        c["tid"] = c["tid"] + 50 + 10 * i
+                    if isinstance(c.get("args"), dict) and "correlation" in c["args"]:
+                        c["args"]["correlation"] = c["args"]["correlation"] + 50_000 + 1000 * i
+                    tgt["events"].append(c)
+                    k += 1
+                t0 += 200
+            case["superset_rank"] = j
     ranks = [r["rank"] for r in case["ranks"]]
     configs = [{"hashseed": 0, "mp": False}]
     for _ in range(draw(st.sampled_from([2, 3, 4]))):
